@@ -108,6 +108,10 @@ class Lay:
             return Lay(self.dims, None, self.what, rev=not self.rev)
         if isinstance(ix, Lay):
             return Gathered(self, ix)
+        if isinstance(ix, tuple) and len(ix) == 2 and isinstance(
+                ix[0], slice) and ix[0] == slice(None) and isinstance(
+                ix[1], Lay):
+            return Gathered(self, ix[1])
         if ix == 0 and self.axes is not None and len(self.axes) == 2:
             e = Poly.const(1)
             for _, x in self.axes[0]:
@@ -246,6 +250,24 @@ def _layout_rules(model, rep):
         f"{tuple(map(str, mp.shp))} although the columns were stacked slot "
         f"by slot: t2f[k, c] no longer names local entity k of cell c"
         if bad else f"cell-to-entity table has layout {mp!r}"), fn.lineno)
+    # unsorted variant (hexahedral facets keep their cyclic vertex order):
+    # one representative column per entity = its first occurrence
+    try:
+        r2 = Interp(model, call_hook=hook).call(fn, [TStub(), idx],
+                                                {"sort": False})
+    except (Unsupported, Raised) as e:
+        raise AnalysisError(f"build_entities(sort=False): {e}")
+    ent = r2[0] if isinstance(r2, tuple) and len(r2) == 2 else None
+    ok2 = isinstance(ent, Gathered) and ent.src.what == "stack" and \
+        ent.idx.what == "first-index" and isinstance(r2[1], Lay) and \
+        r2[1].what == "label"
+    _v(rep, R1, ok2, "build_entities[sort=False]:representative",
+       "unsorted entities = the stacked (unsorted) columns at the first "
+       "occurrence of each unique sorted tuple", "Mesh.build_entities",
+       "with sort=False the entity table is not taken from the unsorted "
+       "columns at the first-occurrence index of each entity (cyclic "
+       "vertex order of hexahedral faces is lost or mismatched)",
+       fn.lineno)
     # ---- build_inverse
     fn = mcls.methods["build_inverse"]
     mapping = Lay([("slot", S), ("cell", N)],
@@ -629,6 +651,14 @@ MUTANTS = [
     ("build_entities reshapes the labels to (cells, slots)",
      (FM, "        mapping = ixb.reshape((len(indices), t.shape[1]))",
       "        mapping = ixb.reshape((t.shape[1], len(indices)))"), "C11-R1"),
+    ("unsorted entities picked through the inverse index",
+     (FM, "        return np.ascontiguousarray(indexing[:, ixa]), mapping",
+      "        return np.ascontiguousarray(indexing[:, ixb]), mapping"),
+     "C11-R1"),
+    ("unsorted entities returned sorted",
+     (FM, "        return np.ascontiguousarray(indexing[:, ixa]), mapping",
+      "        return np.ascontiguousarray(sorted_indexing), mapping"),
+     "C11-R1"),
     ("reversed positions mapped back off by one",
      (FM, "        ix_last = e.shape[0] - ix_last - 1",
       "        ix_last = e.shape[0] - ix_last"), "C11-R1"),
